@@ -16,7 +16,7 @@ import (
 )
 
 var c13NumKeys = []string{"1", "1.0", "1e0", "10e-1", "2", "2.0", "20e-1", "3", "-1", "-1.0", "0", "-0", "0.0", "1.5", "15e-1", "10", "9", "100", "1e2", "0.5", "5e-1", "5E-1", "1E0", "1E+1", "15E-1"}
-var c13StrKeys = []string{"", "a", "b", "ab", "aa", "B", "A", "é", "e", "z", "日", "日本", "😀", "�", "~", "ÿ", "ā", "￿", "𐀀", "a ", " a"}
+var c13StrKeys = []string{"", "a", "b", "ab", "aa", "B", "A", "é", "e", "z", "日", "日本", "😀", "�", "~", "ÿ", "ā", "￿", "𐀀", "a ", " a", "\x7f", "\u0080", "\u07ff", "\u0800", "\ud7ff", "\ue000", "\U00010000", "\U0010ffff"}
 
 // c13Verdict checks the validity predicates of sort / sort_by / min / max /
 // min_by / max_by on the result. keys[i] is the key of input element i.
@@ -209,10 +209,21 @@ func TestC13_Sort(t *testing.T) {
 		var e ast.Expr
 		if by {
 			ref := ast.Expr(ast.F("k"))
-			if rapid.IntRange(0, 5).Draw(t, "refkind") == 0 {
+			letVar := false
+			switch rapid.IntRange(0, 9).Draw(t, "refkind") {
+			case 0:
 				ref = ast.Call("not_null", ast.A(ast.F("k")))
+			case 1: // the key expression reads a variable of the enclosing scope for every element
+				ref = (&ast.Chain{Head: ast.Head{Kind: ast.HMultiList, Items: []ast.Expr{ast.F("k"), ast.Var("d")}}}).With(ast.Step{Kind: ast.SIndex, Index: 0})
+				letVar = true
+			case 2:
+				ref = ast.Call("not_null", ast.A(ast.Var("missing")), ast.A(ast.F("k")))
+				letVar = true
 			}
 			e = ast.Call(fn, ast.A(ast.F("a")), ast.Ref(ref))
+			if letVar {
+				e = &ast.Let{Names: []string{"d", "missing"}, Vals: []ast.Expr{ast.Lit(jv.VInt(1)), ast.Lit(jv.VNull())}, Body: e}
+			}
 		} else {
 			e = ast.Call(fn, ast.A(ast.F("a")))
 		}
